@@ -1,6 +1,6 @@
 (* Uniform executable entry point of the model for the correspondence check:
    run_case tag args = the observable outputs the implementation must produce for the same case. *)
-From DDSV Require Import base.Machine model.View model.Layout model.DecoderSM model.EncoderSM model.Split model.DecodeScript model.Formats gen.GenFormats spec.SpecLayout model.HeaderTypes gen.GenHeader model.Header model.Numeric model.BCdec model.BC7 model.Float model.Convert model.Uncomp model.Crop model.Encode model.BC6 model.BCF32.
+From DDSV Require Import base.Machine model.View model.Layout model.DecoderSM model.EncoderSM model.Split model.DecodeScript model.Formats gen.GenFormats spec.SpecLayout model.HeaderTypes gen.GenHeader model.Header model.Numeric model.BCdec model.BC7 model.Float model.Convert model.Uncomp model.Crop model.RectPath model.Encode model.BC6 model.BCF32.
 
 Local Open Scope Z_scope.
 
@@ -369,6 +369,18 @@ Definition run_c05 (a : list Z) : list Z :=
   | _ => [-99]
   end.
 
+(* ---- C05 block code paths: [mode (0 full, 1 rect); bw; bh; bpb; conv; bbpp; outbpp; pitch; W; H; ox; oy; w; h]
+   -> the call trace of the block paths, every event preceded by its length *)
+Definition run_c51 (a : list Z) : list Z :=
+  match a with
+  | [mode; bw; bh; bpb; conv; bbpp; outbpp; pitch; W; H; ox; oy; w; h] =>
+      let n := Z.to_nat in
+      let tr := if mode =? 0 then RectPath.full_trace (n bw) (n bh) (n bpb) (negb (conv =? 0)) 3072 (n bbpp) (n outbpp) (n pitch) (n W) (n H)
+                else RectPath.rect_trace (n bw) (n bh) (n bpb) (negb (conv =? 0)) 3072 (n bbpp) (n outbpp) (n pitch) (n ox) (n oy) (n w) (n h) in
+      flat_map (fun e => Z.of_nat (length e) :: map Z.of_nat e) tr
+  | _ => [-99]
+  end.
+
 (* ---- C12 uncompressed encode: [fmt; channels; prec; values...] -> bytes *)
 Definition run_c12 (a : list Z) : list Z :=
   match a with
@@ -399,6 +411,7 @@ Definition run_case (tag : Z) (args : list Z) : list Z :=
   | 3 => run_c03 args
   | 4 => run_c04 args
   | 5 => run_c05 args
+  | 51 => run_c51 args
   | 12 => run_c12 args
   | 121 => run_c121 args
   | 40 => run_c40 args
